@@ -624,17 +624,25 @@ func runQueries(ctx sdk.Context, a *app.NibiruApp, r *reg, q queryPlan) J {
 			out = append(out, r.V(call(s, append(word(3), word(slot)...))))
 		}
 		cq := "err"
-		if resp, err := a.EvmKeeper.Code(ctx, &evm.QueryCodeRequest{Address: s.Hex()}); err == nil {
-			cq = hex.EncodeToString(resp.Code)
+		if p := Recover(func() {
+			if resp, err := a.EvmKeeper.Code(ctx, &evm.QueryCodeRequest{Address: s.Hex()}); err == nil {
+				cq = hex.EncodeToString(resp.Code)
+			}
+		}); p != "" {
+			cq = "panic" // e.g. an imported account whose code hash has no bytecode
 		}
 		out = append(out, r.V("codeq:"+cq))
 		sq := "codeless" // eth_getStorageAt of an account without bytecode: on the exception list
-		if cq == "" || cq == "err" {
+		if cq == "" || cq == "err" || cq == "panic" {
 			out = append(out, r.V("storq:"+sq))
 			continue
 		}
-		if resp, err := a.EvmKeeper.Storage(ctx, &evm.QueryStorageRequest{Address: s.Hex(), Key: gethcommon.BigToHash(big.NewInt(1)).Hex()}); err == nil {
-			sq = resp.Value
+		if p := Recover(func() {
+			if resp, err := a.EvmKeeper.Storage(ctx, &evm.QueryStorageRequest{Address: s.Hex(), Key: gethcommon.BigToHash(big.NewInt(1)).Hex()}); err == nil {
+				sq = resp.Value
+			}
+		}); p != "" {
+			sq = "panic"
 		}
 		out = append(out, r.V("storq:"+sq))
 	}
